@@ -289,3 +289,37 @@ Proof.
   destruct (Htys x Hx) as [_ [_ Hyx]].
   fold T1' T2' in HR'. rewrite <- (HR' (si_yield x) Hyx). fold Yx. rewrite HlY. apply Nat.eqb_refl.
 Qed.
+
+(* ---- all table clauses of the certificate, for the entries as [ainfer] creates them ---------------- *)
+Theorem ainfer_loop_clauses ty_of iv lb ub sp its rs body ys T :
+  sty_stmt ty_of (SFor iv lb ub sp its rs body ys) = true -> tbl_ok T ->
+  nodup_nat (map si_arg (state_iters its ys rs)) = true ->
+  let sis := state_iters its ys rs in
+  let T1' := ainfer_block body (fold_left (fun T' x => tset (si_arg x) (tlook T (si_init x)) T') sis T) in
+  let T2 := fold_left (fun T' x => tset (si_arg x) (st_inter (tlook T (si_init x)) (tlook T1' (si_yield x))) T') sis T in
+  let T2' := ainfer_block body T2 in
+  forall x, In x sis ->
+    let head := tlook T2 (si_arg x) in
+    let res := st_inter (tlook T (si_init x)) (tlook T2' (si_yield x)) in
+    st_sub head (tlook T (si_init x)) = true /\ st_sub head (tlook T2' (si_yield x)) = true /\
+    st_sub res (tlook T (si_init x)) = true /\ st_sub res (tlook T2' (si_yield x)) = true.
+Proof.
+  intros Hty HT Hnb sis T1' T2 T2' x Hx head res.
+  assert (Hh : head = st_inter (tlook T (si_init x)) (tlook T1' (si_yield x))).
+  { unfold head, T2.
+    exact (tlook_fold_key si_arg (fun y => st_inter (tlook T (si_init y)) (tlook T1' (si_yield y))) sis Hnb T x Hx). }
+  repeat split.
+  - rewrite Hh. apply st_inter_sub_l. apply HT.
+  - exact (ainfer_head_inductive ty_of iv lb ub sp its rs body ys T Hty HT Hnb x Hx).
+  - apply st_inter_sub_l. apply HT.
+  - apply st_inter_sub_r.
+Qed.
+
+Theorem ainfer_if_clauses (A B : astate) :
+  nodup_nat (map fst A) = true ->
+  st_sub (st_inter A B) A = true /\ st_sub (st_inter A B) B = true.
+Proof. intros H. split; [apply st_inter_sub_l; exact H|apply st_inter_sub_r]. Qed.
+
+Theorem ainfer_setup_clause (X : astate) fs :
+  nodup_nat (map fst X) = true -> st_sub (st_update X fs) (st_update X fs) = true.
+Proof. intros H. apply st_sub_refl. apply st_update_keys_nodup. exact H. Qed.
